@@ -38,6 +38,8 @@ SPEC = {
 
 
 def run(ctx):
+    from rules.common import require_fields
+    require_fields(ctx.program, 'cacheutils.LRI', ['_lock', '_anchor', '_link_lookup'])
     for cls in ('cacheutils.LRI', 'cacheutils.LRU'):
         locks.check_class(ctx, cls, LOCK_SPEC)
     ctx.need('T6ab', 18)
